@@ -356,9 +356,10 @@ structure MSym (N : Type) where
 
 def mnames {N} (l : List (MSym N)) : List N := l.map (·.name)
 
-def renameId {N} (i : Nat) (n : N) : List (MSym N) → List (MSym N)
+/-- `rename_symbol(self_sym, n)` where `self_sym = lookup(old)` -/
+def renameNm {N} [DecidableEq N] (old n : N) : List (MSym N) → List (MSym N)
   | [] => []
-  | s :: r => if s.id == i then { s with name := n } :: r else s :: renameId i n r
+  | s :: r => if s.name = old then { s with name := n } :: r else s :: renameNm old n r
 
 /-- state of one `merge(other)`: the growing routine table and the (current) names of `other` -/
 structure MState (N : Type) where
@@ -384,7 +385,7 @@ def mergeOne {N} [DecidableEq N] (fresh : List N → N → N) (outer : List N)
       if o.kind = .free then
         some { self := st.self ++ [{ o with name := n' }], otherNames := replaceName o.name n' st.otherNames }
       else if s.kind = .free then
-        some { self := renameId s.id n' st.self ++ [o], otherNames := st.otherNames }
+        some { self := renameNm s.name n' st.self ++ [o], otherNames := st.otherNames }
       else none
 
 def mergeGo {N} [DecidableEq N] (fresh : List N → N → N) (outer : List N) :
